@@ -1,6 +1,7 @@
 package sym
 
 import (
+	"strconv"
 	"bufio"
 	"fmt"
 	"io"
@@ -10,6 +11,13 @@ import (
 	"strings"
 	"time"
 )
+
+var resetAfter = func() int {
+	if v, err := strconv.Atoi(os.Getenv("VERIF_RESET_AFTER")); err == nil {
+		return v
+	}
+	return 3000
+}()
 
 var qlog = os.Getenv("VERIF_QLOG") != ""
 
@@ -32,6 +40,7 @@ type Solver struct {
 	out     *bufio.Reader
 	defined map[int]bool
 	declUF  map[string]bool
+	Resets  int
 	Queries int
 	Time    time.Duration
 	Errors  []string
@@ -185,6 +194,17 @@ func (s *Solver) Check(assertions []*Term, wantModel []*Term) (Result, map[int]*
 		}
 	}()
 	var sb strings.Builder
+	if len(s.defined) > resetAfter {
+		// solvers slow down as global definitions pile up: start a fresh context
+		sb.WriteString("(reset)\n")
+		if strings.HasPrefix(s.kind, "cvc5") {
+			sb.WriteString("(set-logic ALL)\n")
+		}
+		sb.WriteString("(set-option :produce-models true)\n")
+		s.defined = map[int]bool{}
+		s.declUF = map[string]bool{}
+		s.Resets++
+	}
 	for _, a := range assertions {
 		s.define(&sb, a)
 	}
